@@ -2,22 +2,86 @@ package main
 
 import (
 	"fmt"
-	"os"
+	"sort"
 	"time"
 )
 
-// E5 (C11) runs under go1.26.8 as a compiled test binary; filled in later.
+// cmdCheckE5 decides C11: serialized interleavings under testing/synctest
+// (go1.26.8 test binary) and a free-running pass under the race detector.
 func cmdCheckE5(prop, tier string, seed int64, workers int, kf *knownFile, start time.Time) int {
-	fmt.Fprintln(os.Stderr, "vsim: E5 not built yet")
-	return 2
+	b := prepare(prop, false)
+	ser, rc := b.buildE5()
+	tc := tierConfig(prop, tier)
+
+	var avoid, knownHit, lines []string
+	violations := 0
+	for _, k := range kf.forProperty(prop) {
+		pr := b.runProbe(k.Probe)
+		switch {
+		case k.Status == "known" && pr.Reproduces:
+			lines = append(lines, fmt.Sprintf("KNOWN-FINDING: property=%s %s [%s]", prop, k.What, k.ID))
+			knownHit = append(knownHit, k.ID)
+			avoid = append(avoid, k.Avoid...)
+		case k.Status == "fixed" && pr.Reproduces:
+			path := writeProbeReplay(prop, k, pr, b)
+			lines = append(lines, fmt.Sprintf("VIOLATION property=%s replay=%s", prop, path))
+			fmt.Printf("regression of fixed finding %s: %s\n  %s\n", k.ID, k.What, pr.Detail)
+			violations++
+		}
+	}
+	sort.Strings(avoid)
+
+	// serialized interleavings: 60% of the budget on all cores (one P per worker)
+	tcs := tc
+	tcs.budget = tc.budget * 6 / 10
+	sr, v := ser.explore(prop, tier, seed, workers, tcs, avoid, kf, &lines, &knownHit)
+	violations += v
+	// free-running under the race detector: 4 processes with 4 Ps each
+	tcr := tc
+	tcr.budget = tc.budget * 4 / 10
+	rw := workers / 4
+	if rw < 1 {
+		rw = 1
+	}
+	srr, v := rc.explore(prop, tier, seed, rw, tcr, avoid, kf, &lines, &knownHit)
+	violations += v
+
+	samples := ser.samples(prop, tier, seed, workers, avoid)
+	// merge the two phases for the evidence
+	merged := *sr
+	merged.sums = append(append([]summary{}, sr.sums...), srr.sums...)
+	merged.traces += srr.traces
+	merged.states += srr.states
+	merged.wall += srr.wall
+	phases = map[string]interface{}{
+		"serialized":          phaseInfo(sr),
+		"free_running_race":   phaseInfo(srr),
+		"uncontrolled_corner": "the interleaving of the free-running pass is not controlled by the simulator (DESIGN.md 4.3); its oracles are the race detector (no false positives) and equality with the solo results",
+	}
+	writeEvidence(prop, tier, seed, b, &merged, samples, avoid, knownHit, violations, time.Since(start).Seconds())
+	phases = nil
+	for _, l := range lines {
+		fmt.Println(l)
+	}
+	fmt.Printf("vsim: %s %s seed=%d: %d serialized runs (%d distinct release sequences), %d free-running runs under -race, %d violation(s), %.1fs\n",
+		prop, tier, seed, totalRuns(sr), sr.scheds, totalRuns(srr), violations, time.Since(start).Seconds())
+	if violations > 0 {
+		return 1
+	}
+	return 0
 }
 
-func replayE5(path string, bts []byte) int {
-	fmt.Fprintln(os.Stderr, "vsim: E5 not built yet")
-	return 2
+func totalRuns(sr *searchResult) int {
+	n := 0
+	for _, s := range sr.sums {
+		n += s.Runs
+	}
+	return n
 }
 
-func selftestDeterminism(args []string) int {
-	fmt.Fprintln(os.Stderr, "vsim: determinism selftest not built yet")
-	return 2
+func phaseInfo(sr *searchResult) map[string]interface{} {
+	return map[string]interface{}{"runs": totalRuns(sr), "distinct_traces": sr.traces, "distinct_schedules": sr.scheds, "wall_s": sr.wall}
 }
+
+// phases is extra evidence of multi-phase checks.
+var phases map[string]interface{}
